@@ -723,18 +723,35 @@ func c14ChunkPhase(c *Ctx, fn *ssa.Function) {
 					problems = append(problems, "stored name is not <slice>.ClientObject().GetName()")
 				} else {
 					setOK, recOK := false, false
-					for _, call := range callsIn(fn) {
-						if !il.L.Body[call.Block()] {
+					// the construction of the slice (factory, SetObjects) may live in an extracted helper:
+					// calls are taken from the inlined view, helper parameters are read through the
+					// call chain, and the object is identified through the helper's result
+					sliceVals := p.rvValuesX(sliceObj)
+					isSliceObj := func(v ssa.Value) bool {
+						if stripConv(v) == stripConv(sliceObj) {
+							return true
+						}
+						xs := p.rvValuesX(v)
+						return len(sliceVals) == 1 && len(xs) == 1 && stripConv(xs[0]) == stripConv(sliceVals[0])
+					}
+					recFn := c.MustFunc(pkgPkgDeploy, "(*DeploymentReconciler).reconcileSlice")
+					for _, xc := range p.callsInX(fn) {
+						call := xc.Call
+						outer := call.Block()
+						if len(xc.Chain) > 0 {
+							outer = xc.Chain[0].Block()
+						}
+						if !il.L.Body[outer] {
 							continue
 						}
-						if calleeName(call.Common) == "SetObjects" && callRecv(call.Common) == sliceObj {
-							if a := callArgs(call.Common); len(a) == 1 && p.isElemOf(a[0], il) {
-								if p.mustPrecede(store, func(in ssa.Instruction) bool { return in == call.Instr }) {
+						if calleeName(call.Common) == "SetObjects" && isSliceObj(callRecv(call.Common)) {
+							if a := callArgs(call.Common); len(a) == 1 && p.isElemOf(p.xcResolve(a[0], xc.Chain), il) {
+								if p.mustPrecedeX(store, func(in ssa.Instruction) bool { return in == call.Instr }) {
 									setOK = true
 								}
 							}
 						}
-						if calleeName(call.Common) == "reconcileSlice" {
+						if recFn != nil && staticCallee(call.Common) == recFn && len(xc.Chain) == 0 {
 							a := callArgs(call.Common)
 							if cv, isCall := call.Instr.(*ssa.Call); isCall && len(a) == 3 && a[2] == sliceObj && p.errOfCallIsNil(p.FactsAt(store.Block()), cv) {
 								recOK = true
@@ -1751,42 +1768,75 @@ func c14r5(c *Ctx) {
 			listCall, _ = call.Instr.(*ssa.Call)
 		}
 	}
+	// The set may be built by an extracted helper (`referenced := collectX(deploy, objectSets)`): it is
+	// resolved through the helper's result to the map object; the inserts and their loops are then
+	// judged inside the helper, whose call necessarily precedes the guarded delete.
+	var setObj ssa.Value
+	var setFn *ssa.Function
 	if set != nil {
-		for _, r := range referrersOf(set) {
-			mu, ok := r.(*ssa.MapUpdate)
-			if !ok || mu.Map != set {
-				continue
+		if xs := p.rvValuesX(set); len(xs) == 1 {
+			setObj = stripConv(xs[0])
+			if in, isInstr := setObj.(ssa.Instruction); isInstr {
+				setFn = in.Parent()
 			}
-			inserts = append(inserts, ins{mu: mu, from: c14SliceNameOrigin(p, mu.Key, deploy, listCall)})
+		}
+		if setFn != nil && setFn != gc {
+			// only a helper called directly for the set is followed
+			hc, _ := asCall(set)
+			if hc == nil || staticCallee(hc.Common()) != setFn {
+				setFn = nil
+			}
+		}
+		if setFn != nil {
+			for _, r := range referrersOf(setObj) {
+				mu, ok := r.(*ssa.MapUpdate)
+				if !ok || mu.Map != setObj {
+					continue
+				}
+				inserts = append(inserts, ins{mu: mu, from: c14SliceNameOrigin(p, mu.Key, deploy, listCall)})
+			}
 		}
 	}
 	completeBefore := func(mu *ssa.MapUpdate) string {
 		// all enclosing loops of the insert are complete index loops and are finished before the delete
 		b := mu.Block()
+		fnm := mu.Parent()
 		var outermost *Loop
-		for _, l := range loopsOf(gc) {
+		for _, l := range loopsOf(fnm) {
 			if l.Body[b] && (outermost == nil || len(l.Body) > len(outermost.Body)) {
 				outermost = l
 			}
 		}
-		for _, l := range loopsOf(gc) {
+		for _, l := range loopsOf(fnm) {
 			if !l.Body[b] {
 				continue
 			}
 			if _, why := fullIndexLoop(l); why != "" {
 				return "insert loop is not a complete index loop: " + why
 			}
-			if l.Body[del.Call.Block()] {
-				return "the delete happens inside the insert loop"
-			}
-			if l.Head == outermost.Head && !l.Head.Dominates(del.Call.Block()) {
-				return "the insert loop does not precede the delete on every path"
+			if fnm == gc {
+				if l.Body[del.Call.Block()] {
+					return "the delete happens inside the insert loop"
+				}
+				if l.Head == outermost.Head && !l.Head.Dominates(del.Call.Block()) {
+					return "the insert loop does not precede the delete on every path"
+				}
+			} else if l.Head == outermost.Head {
+				// inside the helper the loop must lie on every path to the helper's returns
+				for _, rb := range fnm.Blocks {
+					if len(rb.Instrs) == 0 || (fnm.Recover != nil && rb == fnm.Recover) {
+						continue
+					}
+					if _, isRet := rb.Instrs[len(rb.Instrs)-1].(*ssa.Return); isRet && (!l.Head.Dominates(rb) || l.Body[rb]) {
+						return "the insert loop does not precede the return of the set on every path"
+					}
+				}
 			}
 			// no iteration may skip the insert (innermost loop) / the next inner loop (enclosing loops)
 			var must ssa.Instruction = mu
-			if innermostLoop(gc, b).Head != l.Head {
+			if innermostLoop(fnm, b).Head != l.Head {
 				var inner *Loop
-				for _, l2 := range loopsOf(gc) {
+				for _, l2 := range loopsOf(fnm) {
 					if l2.Body[b] && l2.Head != l.Head && l.Body[l2.Head] && (inner == nil || len(l2.Body) > len(inner.Body)) {
 						inner = l2
 					}
@@ -1989,6 +2039,12 @@ func c14r5(c *Ctx) {
 	}
 }
 
+// c14SameX: a and b denote the same object once parameters of extracted helpers are replaced by the
+// arguments of their single call site (identity of the producing instruction, not of a pure-accessor key).
+func c14SameX(p *Program, a, b ssa.Value) bool {
+	return p.rvParamRoot(a) == p.rvParamRoot(b)
+}
+
 // c14SliceNameOrigin classifies the key inserted into the referenced set: an element of the
 // .Slices of a phase of deploy.GetTemplateSpec() ("template") or of <objectSets[i]>.GetPhases()
 // where objectSets is result 0 of the lister ("objectsets").
@@ -2045,7 +2101,7 @@ func c14SliceNameOrigin(p *Program, key ssa.Value, deploy *ssa.Parameter, listCa
 			}
 			switch calleeName(call.Common()) {
 			case "GetTemplateSpec":
-				if stripConv(callRecv(call.Common())) == ssa.Value(deploy) {
+				if r := stripConv(callRecv(call.Common())); r == ssa.Value(deploy) || c14SameX(p, r, deploy) {
 					return "template"
 				}
 				return ""
@@ -2054,7 +2110,8 @@ func c14SliceNameOrigin(p *Program, key ssa.Value, deploy *ssa.Parameter, listCa
 				r := stripConv(callRecv(call.Common()))
 				if u, isU := r.(*ssa.UnOp); isU {
 					if ia, isIA := u.X.(*ssa.IndexAddr); isIA {
-						if e, isE := ia.X.(*ssa.Extract); isE && e.Index == 0 && listCall != nil && e.Tuple == ssa.Value(listCall) {
+						lst := p.rvParamRoot(ia.X) // the list may arrive as a parameter of an extracted helper
+						if e, isE := lst.(*ssa.Extract); isE && e.Index == 0 && listCall != nil && e.Tuple == ssa.Value(listCall) {
 							return "objectsets"
 						}
 					}
